@@ -188,22 +188,6 @@ theorem FoundS.mono {L A A' st x} (h : FoundS L A st x) (hle : A ≤ A') : Found
 
 /-! ## the loop of `resume_incomplete_search` -/
 
-theorem resume_grow_err (f : Nat) (ip : RecordPos) (mk : Bool) (r r1 : Reader) (br' : BufRd)
-    (k : IoKind) (h : ¬ r.br.buf.length < r.br.cap)
-    (hp : (!mk || decide (r.bp.pos0 = 0)) = true)
-    (hg : grow r = (r1, .ok ())) (hfill : fillBuf r1.br = (br', .error k)) :
-    resume (f + 1) ip mk r = ({ r1 with br := br', state := .finished }, .err (.io k)) := by
-  rw [resume, if_neg h]
-  simp only [hp, if_true, hg, hfill]
-
-theorem resume_room_err (f : Nat) (ip : RecordPos) (mk : Bool) (r r1 : Reader) (br' : BufRd)
-    (k : IoKind) (h : ¬ r.br.buf.length < r.br.cap)
-    (hp : (!mk || decide (r.bp.pos0 = 0)) = false)
-    (hg : makeRoom r ip = some r1) (hfill : fillBuf r1.br = (br', .error k)) :
-    resume (f + 1) ip mk r = ({ r1 with br := br', state := .finished }, .err (.io k)) := by
-  rw [resume, if_neg h]
-  simp only [hp, Bool.false_eq_true, if_false, hg, hfill]
-
 def muS (L : Nat) (r : Reader) : Nat :=
   (L - r.br.src.cursor) + (if r.br.buf.length < r.br.cap then 0 else 1)
 
